@@ -194,7 +194,7 @@ def run(tier, seed, replay_file):
         """State graph with the constants of the compiled code, replayed edge by edge on the real tunnel."""
         gc = graph_config(k, cfg, kind, big)
         # the thorough graphs have up to 830k edges; Python keeps the first 250k (breadth-first order), TLC still checks all
-        g = run_tlc(gc, workers=per, edges=True, heap="6g", edge_limit=250000 if big else None)
+        g = run_tlc(gc, workers=per, edges=True, heap="6g", edge_limit=250000 if big else None, compact=True)
         if g.violation:
             raise vlib.Broken("the design violates %s in graph configuration %s" % (g.violation, name))
         gr = vlib.Graph(g)
@@ -219,7 +219,7 @@ def run(tier, seed, replay_file):
                  RSizes=tla_set([1, 100, 4096, mc - 1, mc, mc + tag - 1, mc + tag, 1 << 17]),
                  SrcCaps=tla_set([32768, mc, mc + 1]), DSizes=tla_set([1, req - 1, req, rsp - 1, rsp, 17, 18]),
                  Paths='{"plain","rf","wt","t2t"}', Writers='{"Ac","As","Bc","Bs"}', MaxW=14, MaxR=14)
-        s = run_tlc(c, workers=1, edges=True, simulate="num=%d" % num, depth=28, seed=seed, edge_limit=600000, heap="6g", timeout=1200)
+        s = run_tlc(c, workers=1, edges=True, simulate="num=%d" % num, depth=28, seed=seed, edge_limit=600000, heap="6g", timeout=1200, compact=True)
         if s.violation:
             raise vlib.Broken("the design violates %s in simulation %s" % (s.violation, name))
         sg = vlib.Graph(s)
